@@ -274,20 +274,19 @@ def _filter_rule(R, sm, hdr):
             if "apps" not in lib.apath(src):
                 continue
             found = True
-            cid = [x[2] for x in walk(clo) if x[0] == "agg" and x[1] == "closure"]
+            cb, ei = lib.callable_body(sm.w, clo)   # a closure literal or a named predicate function
             ok = False
             det = ""
-            if cid:
-                cb = sm.w.bv(cid[0])
+            if cb is not None:
                 rows = []
                 for conds, d in cb.decision_paths(0, 0):
                     val = None
                     if d and d[1] is not None:
                         val = lib.term_const(c, cb._trace_rv(cb.blocks[d[0]]["s"][d[1]]["r"], None, 0))
-                    rows.append((tuple(cond_desc(cb, conds)), val))
+                    rows.append((tuple(x_.replace("param%d" % ei, "elem") for x_ in cond_desc(cb, conds)), val))
                 true_rows = [r for r in rows if r[1] == 1]
                 det = str(true_rows)
-                ok = len(true_rows) == 1 and true_rows[0][0] == ("param2.update_check=Some", "param2.update_check@Some.0.status=Ok") and all(r[1] in (0, 1) for r in rows)
+                ok = len(true_rows) == 1 and true_rows[0][0] == ("elem.update_check=Some", "elem.update_check@Some.0.status=Ok") and all(r[1] in (0, 1) for r in rows)
             R.check("C04-R2", "offered-update-predicate", ok, "an app is offered an update iff updatecheck is present with status Ok", "the offered-update filter is not `updatecheck.status == Ok`: " + det, lib.loc(bv, bi))
     if not found:
         R.inconclusive("C04-R2", "offered-update-predicate", "no filter over response.apps found in the check flow")
